@@ -36,14 +36,12 @@ struct Net {
     b: Node,
     ab: Proxy,
     ba: Proxy,
-    t_ms: u64,
-    slack: u64,
 }
 
 impl Net {
     /// stream name of the connection A's protocols treat as primary ("ab0" / "ba0")
     fn primary(&self) -> Option<String> {
-        self.log.with(|l| l.iter().find(|v| is(v, "p_est") && v["n"] == "A").map(|v| if v["dir"] == "out" { "ab0".to_string() } else { "ba0".to_string() }))
+        self.log.with(|l| l.iter().find(|v| is(v, "p_est") && v["n"] == "A" && v["q"] == "q1").map(|v| if v["dir"] == "out" { "ab0".to_string() } else { "ba0".to_string() }))
     }
 
     async fn open(&self, s: &str, from_a: bool, q: &str, hold: bool, ids: &mut HashMap<u64, (bool, usize)>, id: u64) {
@@ -66,7 +64,7 @@ impl Net {
                 ids.insert(id, (from_a, sid as usize));
             }
             other => {
-                self.log.push(json!({"e": "open_fail", "s": s, "t": after(&self.log), "id": id, "why": format!("{other:?}").chars().take(120).collect::<String>()}));
+                self.log.push(json!({"e": "open_fail", "s": s, "t": after(&self.log), "rem": !from_a, "id": id, "why": format!("{other:?}").chars().take(120).collect::<String>()}));
             }
         }
     }
@@ -113,9 +111,10 @@ async fn run_net(sc: &Value) -> (Vec<Value>, f64, Option<String>) {
     let b = Node::start(&cb, log.clone());
     let ab = Proxy::start("ab", b.listen, log.clone()).await;
     let ba = Proxy::start("ba", a.listen, log.clone()).await;
-    let net = Net { log: log.clone(), a, b, ab, ba, t_ms, slack };
+    let net = Net { log: log.clone(), a, b, ab, ba };
     let mut ids: HashMap<u64, (bool, usize)> = HashMap::new();
     let mut why = None;
+    let mut lines: Option<Vec<Value>> = None;
     'run: {
         // ---- establish
         let t0 = before(&log);
@@ -192,10 +191,12 @@ async fn run_net(sc: &Value) -> (Vec<Value>, f64, Option<String>) {
         for s in ["ab0", "ba0"] {
             log.push(json!({"e": "check", "s": s, "t": before(&log)}));
         }
+        // what happens during tear-down is not part of the execution
+        lines = Some(log.snapshot());
         drop(net);
     }
     let over = probe.max_ms();
-    (log.snapshot(), over, why)
+    (lines.unwrap_or_else(|| log.snapshot()), over, why)
 }
 
 fn main() {
